@@ -3,7 +3,8 @@
 (* Validation of recorded AUTH attempts and authorisation decisions of the  *)
 (* real Authenticator / web.start_client / storages against Auth.tla.       *)
 (*   Auth     c p ok            an AUTH message and whether it was accepted *)
-(*   Probe    c action allowed  an EVENT (save) / REQ (query) and its fate  *)
+(*   Probe    c action allowed [sid]  an EVENT (save) / REQ (query), its fate *)
+(*   Push     c sid             an EVENT frame arrived under that sub id    *)
 (*   CanDo    roles action cfg allowed   Authenticator.can_do called        *)
 (*            directly (roles = <<>> for no token, else <<set>>)            *)
 (*   SetRoles key roles / GetRoles key roles    role assignments            *)
@@ -12,7 +13,7 @@
 (***************************************************************************)
 EXTENDS Integers, Sequences, FiniteSets, TLC, Json, TraceData
 
-VARIABLES token, last, assigned, tid, l, bad
+VARIABLES token, last, assigned, refused, tid, l, bad
 
 A == INSTANCE Auth WITH Conns <- TD_Conns, Keys <- TD_Keys, RolesOf <- TD_RolesOf, DefaultRoles <- TD_DefaultRoles,
                         ActionRoles <- TD_ActionRoles
@@ -20,7 +21,7 @@ A == INSTANCE Auth WITH Conns <- TD_Conns, Keys <- TD_Keys, RolesOf <- TD_RolesO
 Trace == Traces[tid]
 Line == Trace[l]
 
-TraceInit == tid \in DOMAIN Traces /\ l = 1 /\ bad = {} /\ A!Init /\ assigned = <<>>
+TraceInit == tid \in DOMAIN Traces /\ l = 1 /\ bad = {} /\ A!Init /\ assigned = <<>> /\ refused = {}
 
 With(f, k, v) == [x \in DOMAIN f \cup {k} |-> IF x = k THEN v ELSE f[x]]
 \* the recipe's output validator: the event's author or the authenticated reader is whitelisted, or it is a relay list
@@ -31,31 +32,37 @@ TraceNext ==
     /\ CASE Line.a = "Auth" ->
               /\ token' = IF Line.ok THEN [token EXCEPT ![Line.c] = <<Line.p.signer>>] ELSE token
               /\ last' = [a |-> "auth", c |-> Line.c, p |-> Line.p, ok |-> Line.ok]
-              /\ UNCHANGED assigned
+              /\ UNCHANGED <<assigned, refused>>
               /\ bad' = bad \cup {<<n, l>> : n \in (IF A!Auth(Line.c, Line.p, Line.ok) THEN {} ELSE {"Conform"}) \cup A!StepVerdict}
          [] Line.a = "Probe" ->
               /\ UNCHANGED <<token, assigned>>
               /\ last' = [a |-> "probe", c |-> Line.c, action |-> Line.action, allowed |-> Line.allowed]
+              \* a REQ that was refused ("restricted") must stay without any effect: remember its subscription id
+              /\ refused' = IF Line.action = "query" /\ ~Line.allowed /\ "sid" \in DOMAIN Line THEN refused \cup {<<Line.c, Line.sid>>} ELSE refused
               /\ bad' = bad \cup {<<n, l>> : n \in A!StepVerdict}
+         [] Line.a = "Push" ->
+              \* an EVENT frame arrived on connection c under subscription id sid
+              /\ UNCHANGED <<token, last, assigned, refused>>
+              /\ bad' = bad \cup {<<n, l>> : n \in IF <<Line.c, Line.sid>> \in refused THEN {"C14_RefusedReqHasNoEffect"} ELSE {}}
          [] Line.a = "CanDo" ->
-              /\ UNCHANGED <<token, last, assigned>>
+              /\ UNCHANGED <<token, last, assigned, refused>>
               /\ bad' = bad \cup {<<n, l>> : n \in
                      IF Line.allowed = ((IF Line.roles = <<>> THEN TD_DefaultRoles ELSE Line.roles[1]) \cap Line.cfg # {})
                      THEN {} ELSE {"C14_RoleCheck"}}
          [] Line.a = "SetRoles" ->
               /\ assigned' = With(assigned, Line.key, Line.roles)
-              /\ UNCHANGED <<token, last>> /\ bad' = bad
+              /\ UNCHANGED <<token, last, refused>> /\ bad' = bad
          [] Line.a = "GetRoles" ->
-              /\ UNCHANGED <<token, last, assigned>>
+              /\ UNCHANGED <<token, last, assigned, refused>>
               /\ bad' = bad \cup {<<n, l>> : n \in
                      IF Line.roles = (IF Line.key \in DOMAIN assigned THEN assigned[Line.key] ELSE TD_DefaultRoles)
                      THEN {} ELSE {"C14_RolesReadBack"}}
          [] Line.a = "Deliver" ->
-              /\ UNCHANGED <<token, last, assigned>>
+              /\ UNCHANGED <<token, last, assigned, refused>>
               /\ bad' = bad \cup {<<n, l>> : n \in IF OutOK(Line.c, Line.pk, Line.kind) THEN {} ELSE {"C14_OutputValidated"}}
     /\ l' = l + 1
     /\ tid' = tid
     /\ (l' > Len(Trace)) => PrintT("@@" \o ToJson([tid |-> tid, n |-> Len(Trace), bad |-> bad']))
 
-TraceSpec == TraceInit /\ [][TraceNext]_<<token, last, assigned, tid, l, bad>>
+TraceSpec == TraceInit /\ [][TraceNext]_<<token, last, assigned, refused, tid, l, bad>>
 =============================================================================
